@@ -240,7 +240,7 @@ macro_rules! lincode_root {
                 for &(size, nv) in sizes {
                     let beh = crate::beh::Beh {
                         id: format!("root-{}-{}", size, nv), prop: "C08".into(), scheme: <$A>::NAME.into(), max_degree: size as i64,
-                        num_vars: nv, supported: size as i64, hiding: 0, bounds: vec![], nobounds: true, polys: vec![], rng: false, wf: true, note: String::new(),
+                        num_vars: nv, supported: size as i64, hiding: 0, bounds: vec![], nobounds: true, polys: vec![], rng: false, wf: true, note: String::new(), vsupported: -1,
                         ops: vec![], adv: vec![], expect: Default::default(), ser: vec![], tag: String::new(),
                     };
                     let pp = match crate::session::cached_setup::<$A>(size as i64, nv) {
